@@ -402,6 +402,11 @@ def handle : List String → Option String
     some (modelVerdict cmd arch real rx ++ " | roles=" ++ (← rolesVerdict toks real rx) ++ " | weights=" ++
           (← weightsVerdict toks arch.ncores real) ++ " | dma=" ++ (← dmaVerdict toks arch.ncores lutBase lutSize real) ++
           " | clamp=" ++ (← clampVerdict toks real rx) ++ " | fm=" ++ (← fmVerdict toks real))
+  | "hl2npu_limits" :: toks => do
+    -- `get_mem_limits_for_regions(arch)`: the dictionary as `region:size` pairs sorted by region
+    let (arch, _, _) ← parseArch (← kv toks "arch")
+    let l := (memLimits arch).toArray.qsort (fun a b => a.1 < b.1) |>.toList
+    some (",".intercalate (l.map fun (r, sz) => s!"{r}:{sz}"))
   | "hl2npu_f" :: "qdiv" :: f :: s :: _ => do
     some (match FloatExact.qdiv (← parseNat? f) (← parseNat? s) with | some q => toString q | none => "none")
   | "hl2npu_f" :: "mul" :: s :: k :: ik :: q :: _ => do
